@@ -32,6 +32,7 @@ type funcTarget struct {
 	recv     string // receiver type name or ""
 	name     string
 	skeleton bool   // keep control structure and returns only
+	conds    bool   // emit the conditions of the function's top-level `if` statements, in source order, as boolean functions of their free variables
 	prefix   bool   // translate the leading statements only: stop (result 0 = "goes on") at the first top-level statement outside the subset
 	fragTag  string // fragment mode: translate the first `switch <fragTag>` statement ...
 	fragOut  string // ... as a function of fragTag returning the final value of fragOut
@@ -51,6 +52,8 @@ var funcTargets = []funcTarget{
 	{pkg: "gws", recv: "Conn", name: "checkMask"},
 	{pkg: "gws", recv: "Conn", name: "readMessage", skeleton: true, prefix: true},
 	{pkg: "gws", recv: "Conn", name: "readControl", skeleton: true, prefix: true},
+	{pkg: "gws", recv: "Conn", name: "readMessage", conds: true},
+	{pkg: "gws", recv: "Conn", name: "genFrame", conds: true},
 	{pkg: "internal", name: "binaryCeil"},
 	{pkg: "internal", name: "Min"},
 	{pkg: "internal", name: "Max"},
@@ -64,6 +67,7 @@ type ftr struct {
 	recv    string            // receiver identifier
 	params  map[string]string // extra parameters discovered ((*recv)[k], recv.field, recv.path.Method()): name -> Gallina type
 	err     string
+	free    map[string]string // conds mode: identifiers used in the expression (they become parameters)
 	stopped string // prefix mode: the statement the translation stopped before
 	fset    *token.FileSet
 }
@@ -173,12 +177,22 @@ func (t *ftr) expr(e ast.Expr) string {
 		if x.Name == "nil" {
 			return "0"
 		}
+		if t.free != nil {
+			t.free["v_"+x.Name] = gtype(t.info.TypeOf(x))
+		}
 		return "v_" + x.Name
 	case *ast.SelectorExpr:
 		if p, ok := t.recvPath(x); ok && p != "" {
 			name := "f_" + p
 			t.params[name] = gtype(t.info.TypeOf(e))
 			return name
+		}
+		if id, ok := x.X.(*ast.Ident); ok {
+			if _, isStruct := t.info.TypeOf(id).Underlying().(*types.Struct); isStruct {
+				name := "s_" + id.Name + "_" + x.Sel.Name // a field of a struct-valued parameter or local
+				t.params[name] = gtype(t.info.TypeOf(e))
+				return name
+			}
 		}
 		return t.fail("unsupported selector")
 	case *ast.IndexExpr:
@@ -295,6 +309,14 @@ func (t *ftr) expr(e ast.Expr) string {
 						return "(" + g.name + " " + strings.Join(args, " ") + ")"
 					}
 				}
+			}
+		}
+		if sel, ok := x.Fun.(*ast.SelectorExpr); ok && t.tgt.conds {
+			if id, ok := sel.X.(*ast.Ident); ok && id.Name != t.recv {
+				// a method of another value (an interface, a buffer): its result is an input of the condition
+				name := "m_" + id.Name + "_" + sel.Sel.Name
+				t.params[name] = gtype(t.info.TypeOf(e))
+				return name
 			}
 		}
 		return t.fail("unsupported call")
@@ -539,6 +561,48 @@ func genFuncs(pkgs []*packages.Package) string {
 		}
 		if fd == nil {
 			unsupported = append(unsupported, name+": function not found")
+			continue
+		}
+		if tg.conds {
+			recvName := ""
+			if fd.Recv != nil && len(fd.Recv.List[0].Names) == 1 {
+				recvName = fd.Recv.List[0].Names[0].Name
+			}
+			n := 0
+			for _, st := range fd.Body.List {
+				ifs, ok := st.(*ast.IfStmt)
+				if !ok {
+					continue
+				}
+				n++
+				tc := &ftr{info: info, tgt: tg, params: map[string]string{}, free: map[string]string{}, recv: recvName}
+				e := tc.expr(ifs.Cond)
+				cname := fmt.Sprintf("%s_cond%d", name, n)
+				if tc.err != "" {
+					unsupported = append(unsupported, cname+": "+tc.err)
+					continue
+				}
+				all := map[string]string{}
+				for k, v := range tc.params {
+					all[k] = v
+				}
+				for k, v := range tc.free {
+					if k != "v_"+recvName {
+						all[k] = v
+					}
+				}
+				var names []string
+				for k := range all {
+					names = append(names, k)
+				}
+				sort.Strings(names)
+				fmt.Fprintf(&b, "(* %s.%s.%s: condition of top-level if #%d *)\nDefinition %s", tg.pkg, tg.recv, tg.name, n, cname)
+				for _, k := range names {
+					fmt.Fprintf(&b, " (%s : %s)", k, all[k])
+				}
+				fmt.Fprintf(&b, " : bool :=\n  %s.\n\n", e)
+			}
+			fmt.Fprintf(&b, "Definition %s_nconds : nat := %d.\n\n", name, n)
 			continue
 		}
 		t := &ftr{info: info, tgt: tg, params: map[string]string{}}
